@@ -14,3 +14,4 @@ import Blackbird.Props.C18Lex
 #print axioms Blackbird.C18_line_end_is_one_newline
 #print axioms Blackbird.C18_line_end_style_irrelevant
 #print axioms Blackbird.C18_tab_or_four_spaces_one_tab
+#print axioms Blackbird.C18_string_literal_is_one_token
